@@ -966,6 +966,30 @@ func init() {
 						nv := g.hash()
 						cap2 := append([]string(nil), capv...)
 						cap2[k] = nv.String()
+						if c.Int("i")%4 == 2 && g.expected[fmt.Sprintf("ConstantSigmasCap[%d]", k)].Sign() > 0 {
+							// the same digits with a minus sign: a different document; it is either
+							// refused or gives another residue (never the assignment of the unsigned one)
+							neg := new(big.Int).Neg(g.expected[fmt.Sprintf("ConstantSigmasCap[%d]", k)])
+							cap2[k] = neg.String()
+							v2s, ok2s := read(cap2)
+							o.Events += 2
+							if !ok1 {
+								return fw.Violate("wellformed_document_refused", "verifier data pair "+c.ID)
+							}
+							if ok2s {
+								if _, werr := witnessGuard(&verifier.VerifierCircuit{VerifierData: v2s, PublicInputs: []gl.Variable{}, Proof: variables.Proof{OpeningProof: variables.FriProof{PowWitness: gl.NewVariable(0)}}}); werr == nil {
+									l1, l2 := circ.Leaves(&v1), circ.Leaves(&v2s)
+									for i := range l1 {
+										if l1[i].Path == fmt.Sprintf("ConstantSigmasCap[%d]", k) && i < len(l2) &&
+											new(big.Int).Mod(l1[i].Big(), bigR).Cmp(new(big.Int).Mod(l2[i].Big(), bigR)) == 0 {
+											return fw.Violate("second_document_not_reflected:verifier_data", fmt.Sprintf("%s: cap entry %d given with a minus sign yields the same assignment as without it", c.ID, k))
+										}
+									}
+								}
+							}
+							o.Inc("signed_string_pairs_compared")
+							return o
+						}
 						v2, ok2 := read(cap2)
 						if !ok1 || !ok2 {
 							return fw.Violate("wellformed_document_refused", "verifier data pair "+c.ID)
@@ -1163,6 +1187,13 @@ func c19Common(r *rand.Rand, dir, fname string) fw.Outcome {
 	groups := make([]map[string]any, ng)
 	for i := range groups {
 		groups[i] = map[string]any{"start": u(), "end": u()}
+		switch r.Intn(6) {
+		case 0: // an empty range is a value like any other
+			groups[i]["end"] = groups[i]["start"]
+		case 1: // ordinary small consecutive ranges
+			groups[i]["start"] = uint64(3 * i)
+			groups[i]["end"] = uint64(3*i + r.Intn(4))
+		}
 	}
 	kis := ul(r.Intn(90))
 	arity := ul(r.Intn(4))
